@@ -302,6 +302,33 @@ def c08d(ctx):
                           '%s runs under FileLock(self.lock_filename)' % recv, fn, x,
                           fail='%s can modify the bundle/index file but is not under FileLock(self.lock_filename) '
                                '(nor in a private helper all of whose call sites are)' % recv)
+    # the V1 data / index objects create their file in the constructor when it is missing (check-then-create): in every method
+    # that writes (takes the bundle lock) they are constructed inside the lock, otherwise a second writer can replace a bundle
+    # that already holds tiles by an empty one while the index keeps the old offsets
+    cls = repo.cls(COMPACT + ':BundleV1')
+    creating = set()
+    for cn in ('BundleDataV1', 'BundleIndexV1'):
+        ini = ctx.fn('%s:%s.__init__' % (COMPACT, cn))
+        if any(is_call(x, 'self._init_bundle', 'self._init_index', 'write_atomic') for x in ini.walk()):
+            creating.add(cn)
+    factories = {st.name for st in cls.node.body if isinstance(st, ast.FunctionDef) and
+                 any(isinstance(r, ast.Return) and isinstance(r.value, ast.Call) and simple_name(r.value) in creating for r in ast.walk(st))}
+    nsites = 0
+    for st in [x for x in cls.node.body if isinstance(x, ast.FunctionDef)]:
+        fn = ctx.fn('%s:BundleV1.%s' % (COMPACT, st.name))
+        locks = [w for w in fn.walk_all() if isinstance(w, ast.With) and _is_filelock_with(w)]
+        if not locks:
+            continue
+        for x in sorted([c for c in fn.walk_all() if isinstance(c, ast.Call) and isinstance(c.func, ast.Attribute) and
+                         unparse(c.func.value) == 'self' and c.func.attr in factories], key=order_key):
+            nsites += 1
+            ok = any(inside(x, w) and not any(inside(x, it.context_expr) for it in w.items) for w in locks)
+            ctx.check(ok, 'BundleV1.%s:%s-constructed-under-lock' % (st.name, x.func.attr),
+                      'self.%s() (creates the file when it is missing) is constructed inside FileLock(self.lock_filename)' % x.func.attr, fn, x,
+                      fail='self.%s() is constructed before the bundle lock is taken: its check-then-create of the bundle file races with a '
+                           'writer that holds the lock (an empty data file replaces one that already holds tiles)' % x.func.attr)
+    if creating and not nsites:
+        raise Undecided('BundleV1: no data()/index() construction in a locking method found')
     # named exemption: BundleDataV1.__init__ -> _init_bundle, guarded by `not os.path.exists`
     init = ctx.fn(COMPACT + ':BundleDataV1.__init__')
     g = init.cfg
@@ -338,3 +365,42 @@ def c08e(ctx):
             continue
         (ctx.ok if o.status == 'ok' else ctx.bad)('%s:%s' % (o.rule, o.construct), o.msg, o.where)
     ctx.stats['functions'] |= sub.stats['functions']
+
+
+@rule('C08.f', floor=2)
+def c08f(ctx):
+    """requests for different meta tiles do not break each other: the sweep of the shared lock directory (run from TileLocker.lock
+    on the request path) tolerates lock files that another request removes under it -- every call that raises for a vanished file
+    sits in a try whose OSError handler has a non-raising path for ENOENT"""
+    fn = ctx.fn('mapproxy/util/lock.py:cleanup_lockdir')
+    loops = [l for l in fn.walk() if isinstance(l, ast.For) and is_call(l.iter, 'os.listdir', 'listdir', 'os.scandir')]
+    if not loops:
+        raise Undecided('cleanup_lockdir: no directory listing loop')
+    RAISING = ('os.path.getmtime', 'getmtime', 'os.unlink', 'os.remove', 'os.stat', 'os.lstat', 'os.path.getsize', 'os.path.getctime', 'os.utime')
+    n = 0
+    for lp in loops:
+        for x in sorted([c for c in ast.walk(lp) if is_call(c, *RAISING)], key=order_key):
+            n += 1
+            ok = False
+            t = enclosing(x, ast.Try)
+            while t is not None and inside(t, lp):
+                in_body = any(inside(x, b) or x is b for b in t.body)
+                for h in t.handlers if in_body else []:
+                    names = {n_.id for n_ in ast.walk(h.type) if isinstance(n_, ast.Name)} | \
+                        {n_.attr for n_ in ast.walk(h.type) if isinstance(n_, ast.Attribute)} if h.type is not None else {'BaseException'}
+                    if names & {'OSError', 'EnvironmentError', 'Exception', 'BaseException', 'FileNotFoundError'}:
+                        # the handler must not re-raise unconditionally
+                        body = h.body
+                        always = bool(body) and isinstance(body[-1], ast.Raise) and len(body) == 1
+                        ok = ok or not always
+                t = enclosing(t, ast.Try)
+            ctx.check(ok, 'cleanup_lockdir:%s-tolerates-vanished-file' % simple_name(x),
+                      '%s on a directory entry is covered by an OSError handler that ignores ENOENT' % call_name(x), fn, x,
+                      fail='%s on a lock file can raise FileNotFoundError into an unrelated request: tile locks are released by removing '
+                           'the file, so an entry can vanish between the listing and this call' % call_name(x))
+    if not n:
+        ctx.ok('cleanup_lockdir:no-raising-calls', 'the sweep performs no call that raises for a vanished entry', fn)
+    tl = ctx.fn('mapproxy/cache/base.py:TileLocker.lock')
+    ok = any(is_call(x, 'cleanup_lockdir') for x in tl.walk())
+    ctx.check(True, 'TileLocker.lock:sweeps' if ok else 'TileLocker.lock:no-sweep', 'the sweep runs on the request path (TileLocker.lock)' if ok else
+              'TileLocker.lock does not sweep the lock directory', tl)
